@@ -1,5 +1,6 @@
 import Driver.SettingsD
 import Driver.CacheD
+import Driver.UrlD
 /-! Line-protocol driver: one JSON object per stdin line, one per stdout line. -/
 open Lean Driver
 
@@ -9,6 +10,9 @@ def dispatch (j : Json) : R Json := do
   | "settings.run" => settingsRun j
   | "transport.run" => transportRun j
   | "cache.run" => cacheRun j
+  | "url.http_to_https" => urlHttpToHttps j
+  | "url.normalize" => urlNormalize j
+  | "url.port" => urlPort j
   | _ => throw s!"unknown op {op}"
 
 def handleLine (line : String) : String :=
